@@ -2,7 +2,8 @@ package main
 
 // C20, stream c20.files: HISTORIES of file loads (consult/1 queries, Exec of texts with ensure_loaded/1,
 // consult/1, include/1 directives, files that load files, recursive and mutual loads, one file under two
-// spellings) in ONE interpreter over a file system (fstest.MapFS assigned to Interpreter.FS) whose files
+// spellings) in ONE interpreter over a FAULTY file system (c20faultFS, an fs.FS assigned to Interpreter.FS:
+// per file a fault plan — Open fails, Read fails after k bytes, the name is a directory, Stat lies) whose files
 // are broken, repaired, changed and removed between the steps.  Case format: see
 // lean/PrologVerif/Driver/C20.lean.  After every load step: the result of the load and the listing of
 // all user predicates.
@@ -12,8 +13,12 @@ import (
 	"fmt"
 	"math/rand"
 	"sort"
+	"strconv"
 	"strings"
-	"testing/fstest"
+	"errors"
+	"io"
+	"io/fs"
+	"time"
 
 	"github.com/ichiban/prolog/engine"
 )
@@ -93,6 +98,33 @@ func c20w(file string, items []c20item) string {
 	return "w " + file + " = " + c20itemsPayload(items)
 }
 
+// c20wFault: write a file with a fault plan.  plan: "open KIND" | "dir" | "stat N" | "read" (fails after
+// byte off: the generator, which lays the text out, says how many read items are complete by then and
+// whether the failure falls inside an item)
+func c20wFault(file string, items []c20item, plan string, off int) string {
+	if plan == "read" {
+		_, spans := c20layout(items)
+		k, inside, _ := c20cut(spans, off)
+		plan = fmt.Sprintf("read %d %d %d", off, k, inside)
+	}
+	return "w " + file + " !" + plan + " = " + c20itemsPayload(items)
+}
+
+// a random fault plan for a file with these items
+func c20randomPlan(r *rand.Rand, file string, items []c20item) string {
+	text, _ := c20layout(items)
+	switch k := r.Intn(10); {
+	case k < 5:
+		return c20wFault(file, items, "read", r.Intn(len(text)+1))
+	case k < 7:
+		return c20wFault(file, items, "open "+pick(r, []string{"notexist", "perm", "other"}), 0)
+	case k < 8:
+		return c20wFault(file, items, fmt.Sprintf("stat %d", pick(r, []int{0, 1, len(text) / 2, len(text) + 100})), 0)
+	default:
+		return c20wFault(file, nil, "dir", 0)
+	}
+}
+
 func c20q(arg *gt_c09) string { return "q " + arg.wire() }
 
 // include/1 has no guard against cycles in the engine (a file that includes itself recurses until the Go
@@ -152,8 +184,19 @@ func genC20FilesRandom(r *rand.Rand) string {
 		return ga(name)
 	}
 	var steps []string
+	write := func(n string, broken bool) string {
+		items := fileOf(n, broken)
+		switch k := r.Intn(20); {
+		case k < 3:
+			return c20randomPlan(r, path(n), items)
+		case k < 4:
+			// a faulty (or directory) entry under the bare name next to a healthy name.pl
+			return c20randomPlan(r, n, items) + " // " + c20w(n+".pl", items)
+		}
+		return c20w(path(n), items)
+	}
 	for _, n := range c20fileNames[:2+r.Intn(2)] {
-		steps = append(steps, c20w(path(n), fileOf(n, r.Intn(3) == 0)))
+		steps = append(steps, write(n, r.Intn(3) == 0))
 	}
 	last := pick(r, c20fileNames)
 	for i, k := 0, 3+r.Intn(6); i < k; i++ {
@@ -186,7 +229,7 @@ func genC20FilesRandom(r *rand.Rand) string {
 			steps = append(steps, "load "+c20itemsPayload(items))
 		case c < 19:
 			// break / repair / change the file
-			steps = append(steps, c20w(path(name), fileOf(name, r.Intn(5) < 2)))
+			steps = append(steps, write(name, r.Intn(5) < 2))
 		default:
 			steps = append(steps, "rm "+path(name))
 		}
@@ -250,6 +293,38 @@ func genC20FilesSystematic() []string {
 			}
 		}
 	}
+	// READ FAULTS: facts(a). facts(b). facts(c). other(a).  failing after every byte offset (inside a clause, on
+	// a clause boundary, before the first byte, at the last byte), loaded in each way; then the other plans
+	facts := []c20item{{kind: 't', t: gc("lib", ga("a"))}, {kind: 't', t: gc("lib", ga("b"))}, {kind: 'c', sub: "line"},
+		{kind: 't', t: gc("lib", ga("c"))}, {kind: 't', t: gc("r", ga("a"))}}
+	factsText, _ := c20layout(facts)
+	old0 := "load " + c20itemsPayload([]c20item{{kind: 't', t: gc("lib", ga("old"))}, {kind: 't', t: gc("r", ga("old"))}})
+	type loader struct {
+		name string
+		step string
+	}
+	loaders := []loader{
+		{"consult", c20q(ga("lib"))},
+		{"consult_pl", c20q(ga("lib.pl"))},
+		{"ensure", "load " + c20itemsPayload([]c20item{c20directive(gc("ensure_loaded", ga("lib"))), {kind: 't', t: gc("top", gi(1))}})},
+		{"include", "load " + c20itemsPayload([]c20item{{kind: 't', t: gc("top", gi(1))}, c20directive(gc("include", ga("lib")))})},
+	}
+	for _, ld := range loaders {
+		for off := 0; off <= len(factsText); off++ {
+			steps := []string{old0, c20wFault("lib.pl", facts, "read", off), ld.step, ld.step, c20w("lib.pl", facts), ld.step, ld.step}
+			out = append(out, strings.Join(steps, " // ")+fmt.Sprintf(" @tag sc=readfault_%s where=byte kind=read", ld.name))
+		}
+		for _, plan := range []string{"open notexist", "open perm", "open other", "stat 0", "stat 3", fmt.Sprintf("stat %d", len(factsText)+50)} {
+			steps := []string{old0, c20wFault("lib.pl", facts, plan, 0), ld.step, ld.step, c20w("lib.pl", facts), ld.step}
+			out = append(out, strings.Join(steps, " // ")+fmt.Sprintf(" @tag sc=plan_%s where=%s kind=plan", ld.name, strings.Fields(plan)[0]))
+		}
+		// a directory (or a faulty file) with the bare name next to lib.pl; both spellings healthy; an empty file
+		for _, first := range []string{c20wFault("lib", nil, "dir", 0), c20wFault("lib", facts, "read", 9), c20wFault("lib", facts, "open perm", 0),
+			c20w("lib", []c20item{{kind: 't', t: gc("lib", ga("bare"))}}), c20w("lib", nil)} {
+			steps := []string{old0, first, c20w("lib.pl", facts), ld.step, ld.step, "rm lib", ld.step, c20q(ga("lib"))}
+			out = append(out, strings.Join(steps, " // ")+fmt.Sprintf(" @tag sc=twonames_%s where=first kind=plan", ld.name))
+		}
+	}
 	// recursive and mutual loads, with a failure at each end
 	for _, kind := range append([]string{""}, c20fileFaultKinds...) {
 		for _, where := range []string{"a", "b"} {
@@ -279,6 +354,7 @@ func genC20FilesExhaustive() []string {
 	alphabet := []string{
 		c20w("lib.pl", good(1)), c20w("lib.pl", good(2)), c20w("lib.pl", bad), c20w("lib.pl", ifail), c20w("main.pl", mainEns),
 		c20q(ga("lib")), c20q(ga("main")), c20q(gtList(ga("main"), ga("lib.pl"))), "rm lib.pl",
+		c20wFault("lib.pl", good(3), "read", 3), c20wFault("lib", nil, "dir", 0),
 		"load " + c20itemsPayload([]c20item{c20directive(gc("ensure_loaded", ga("lib"))), {kind: 't', t: gc("m", gi(1))}}),
 	}
 	var out []string
@@ -310,6 +386,104 @@ func genC20Files(r *rand.Rand, n int, tier string) []string {
 }
 
 // ---------------------------------------------------------------------------------------------
+// a file system with fault plans
+// ---------------------------------------------------------------------------------------------
+
+type c20faultFile struct {
+	data []byte
+	plan string // "" | "open" | "read" | "dir" | "stat"
+	kind string // open: notexist | perm | other
+	n    int    // read: fail after n bytes; stat: the size reported
+}
+
+type c20faultFS map[string]*c20faultFile
+
+type c20openFile struct {
+	name string
+	f    *c20faultFile
+	pos  int
+}
+
+type c20fileInfo struct {
+	name string
+	size int64
+	dir  bool
+}
+
+func (i c20fileInfo) Name() string { return i.name }
+func (i c20fileInfo) Size() int64  { return i.size }
+func (i c20fileInfo) Mode() fs.FileMode {
+	if i.dir {
+		return fs.ModeDir | 0o555
+	}
+	return 0o444
+}
+func (i c20fileInfo) ModTime() time.Time { return time.Time{} }
+func (i c20fileInfo) IsDir() bool        { return i.dir }
+func (i c20fileInfo) Sys() interface{}   { return nil }
+
+var errC20Disk = errors.New("input/output error")
+
+func (m c20faultFS) Open(name string) (fs.File, error) {
+	if !fs.ValidPath(name) {
+		return nil, &fs.PathError{Op: "open", Path: name, Err: fs.ErrInvalid}
+	}
+	f, ok := m[name]
+	if !ok {
+		return nil, &fs.PathError{Op: "open", Path: name, Err: fs.ErrNotExist}
+	}
+	if f.plan == "open" {
+		err := errC20Disk
+		switch f.kind {
+		case "notexist":
+			err = fs.ErrNotExist
+		case "perm":
+			err = fs.ErrPermission
+		}
+		return nil, &fs.PathError{Op: "open", Path: name, Err: err}
+	}
+	return &c20openFile{name: name, f: f}, nil
+}
+
+func (o *c20openFile) Stat() (fs.FileInfo, error) {
+	size := int64(len(o.f.data))
+	if o.f.plan == "stat" {
+		size = int64(o.f.n) // a size that lies
+	}
+	return c20fileInfo{name: o.name, size: size, dir: o.f.plan == "dir"}, nil
+}
+
+func (o *c20openFile) Close() error { return nil }
+
+// Read hands out at most 7 bytes per call; with a read plan it delivers the first n bytes and then a
+// non-EOF error (fs.ReadFile returns the bytes read so far together with that error).
+func (o *c20openFile) Read(p []byte) (int, error) {
+	if o.f.plan == "dir" {
+		return 0, &fs.PathError{Op: "read", Path: o.name, Err: errors.New("is a directory")}
+	}
+	limit := len(o.f.data)
+	if o.f.plan == "read" && o.f.n < limit {
+		limit = o.f.n
+	}
+	if o.pos >= limit {
+		if o.f.plan == "read" {
+			return 0, &fs.PathError{Op: "read", Path: o.name, Err: errC20Disk}
+		}
+		return 0, io.EOF
+	}
+	k := limit - o.pos
+	if k > 7 {
+		k = 7
+	}
+	if k > len(p) {
+		k = len(p)
+	}
+	copy(p, o.f.data[o.pos:o.pos+k])
+	o.pos += k
+	return k, nil
+}
+
+// ---------------------------------------------------------------------------------------------
 // runner
 // ---------------------------------------------------------------------------------------------
 
@@ -327,10 +501,10 @@ func runC20Files(payload string) string {
 		payload = payload[:k]
 	}
 	i, _ := newInterp("")
-	mfs := fstest.MapFS{}
+	mfs := c20faultFS{}
 	i.FS = mfs
 	var out []string
-	loads, failed, reloadAfterFail, reloadAfterOK := 0, 0, 0, 0
+	loads, failed, reloadAfterFail, reloadAfterOK, faulty := 0, 0, 0, 0, 0
 	lastResult := map[string]string{} // load target (as written) -> last result class
 	note := func(target, res string) {
 		loads++
@@ -361,7 +535,21 @@ func runC20Files(payload string) string {
 				body = ne[1]
 			}
 			text, _ := c20layout(c20parseItems(body))
-			mfs[strings.TrimSpace(ne[0])] = &fstest.MapFile{Data: []byte(text)}
+			lhs := strings.Fields(ne[0])
+			ff := &c20faultFile{data: []byte(text)}
+			if len(lhs) > 1 {
+				faulty++
+				ff.plan = strings.TrimPrefix(lhs[1], "!")
+				switch ff.plan {
+				case "open":
+					ff.kind = lhs[2]
+				case "read", "stat":
+					n, err := strconv.Atoi(lhs[2])
+					must(err)
+					ff.n = n
+				}
+			}
+			mfs[lhs[0]] = ff
 			out = append(out, "-")
 		case "rm":
 			delete(mfs, strings.TrimSpace(arg))
@@ -408,6 +596,6 @@ func runC20Files(payload string) string {
 		}
 		return fmt.Sprint(n)
 	}
-	return strings.Join(out, " // ") + fmt.Sprintf(" ### nt=%d loads=%s failed=%s reload_after_fail=%s reload_after_ok=%s %s",
-		nt, b(loads), b(failed), b(reloadAfterFail), b(reloadAfterOK), strings.Join(extra, " "))
+	return strings.Join(out, " // ") + fmt.Sprintf(" ### nt=%d loads=%s failed=%s reload_after_fail=%s reload_after_ok=%s faulty_files=%s %s",
+		nt, b(loads), b(failed), b(reloadAfterFail), b(reloadAfterOK), b(faulty), strings.Join(extra, " "))
 }
